@@ -383,7 +383,7 @@ func genLifecycle(root *pkgSrc) {
 	b.WriteString("]\n")
 
 	// ---- Initialize / Close structure
-	b.WriteString("/-- Per client type: (receiver, Initialize starts with the already-initialized refusal before any transport use,\n    the flag is set to true exactly once and no error return follows it,\n    every error return after the first transport use is preceded by setState(StateDisconnected) in its block,\n    Close stores false into the flag and sets StateDisconnected). -/\ndef clientLifecycleFacts : List (Mcp.Str.Text × Bool × Bool × Bool × Bool) := [\n")
+	b.WriteString("/-- Per client type: (receiver, Initialize starts with the already-initialized refusal before any transport use,\n    the flag is set to true exactly once and no error return follows it,\n    every error return after the first transport use is preceded by setState(StateDisconnected) in its block,\n    Close stores false into the flag and sets StateDisconnected, and does both on every path before any return that follows the\n    transport's close() - in particular before the one that passes a transport error on). -/\ndef clientLifecycleFacts : List (Mcp.Str.Text × Bool × Bool × Bool × Bool) := [\n")
 	for i, recv := range []string{"Client", "StdioClient"} {
 		refuses, once, disc, closeResets := false, false, false, false
 		if mi := byKey[recv+".Initialize"]; mi != nil {
@@ -504,7 +504,10 @@ func genLifecycle(root *pkgSrc) {
 				}
 				return true
 			})
-			closeResets = flag && st
+			// … and does so on EVERY path that follows the transport's close(): no return may lie between the first use of
+			// the transport and the two resets (a Close that passes the transport error on before resetting leaves a client
+			// whose child died "initialized").
+			closeResets = flag && st && closeResetsOnEveryPath(mi)
 		}
 		if i > 0 {
 			b.WriteString(",\n")
@@ -515,6 +518,121 @@ func genLifecycle(root *pkgSrc) {
 	lifecycleServerFacts(root, &b)
 	b.WriteString("end Mcp.Gen\n")
 	writeIfChanged("LifecycleFacts.lean", b.String())
+}
+
+// closeResetsOnEveryPath walks the body of Close in statement order with (transport used, flag reset, state reset):
+// a `return` (or the end of the body) reached with the transport used and a reset missing makes it false.  Resets count
+// only as direct statements of the block they are in (and of the enclosing ones); what a nested block resets does not
+// count after it.  Loops, switches, selects, goto, defer/go of anything touching the transport: not understood = false.
+func closeResetsOnEveryPath(mi *methodInfo) bool {
+	rv := mi.rv
+	usesTransport := func(n ast.Node) bool {
+		if n == nil {
+			return false
+		}
+		found := false
+		ast.Inspect(n, func(x ast.Node) bool {
+			if _, ok := transportCall(x, rv); ok {
+				found = true
+			}
+			return true
+		})
+		return found
+	}
+	isStateReset := func(st ast.Stmt) bool {
+		es, ok := st.(*ast.ExprStmt)
+		if !ok {
+			return false
+		}
+		if m, ok := ownCall(es.X, rv); ok && m == "setState" {
+			if call := es.X.(*ast.CallExpr); len(call.Args) == 1 {
+				if id, ok := call.Args[0].(*ast.Ident); ok && id.Name == "StateDisconnected" {
+					return true
+				}
+			}
+		}
+		return false
+	}
+	type pst struct{ used, flag, state bool }
+	ok := true
+	sawUse := false
+	var walk func(list []ast.Stmt, in pst) (out pst, terminated bool)
+	walk = func(list []ast.Stmt, s pst) (pst, bool) {
+		for _, st := range list {
+			switch x := st.(type) {
+			case *ast.ReturnStmt:
+				for _, r := range x.Results {
+					if usesTransport(r) {
+						s.used, sawUse = true, true
+					}
+				}
+				if s.used && !(s.flag && s.state) {
+					ok = false
+				}
+				return s, true
+			case *ast.IfStmt:
+				if usesTransport(x.Init) || usesTransport(x.Cond) {
+					s.used, sawUse = true, true
+				}
+				b, tb := walk(x.Body.List, s)
+				e, te := s, false
+				switch el := x.Else.(type) {
+				case nil:
+				case *ast.BlockStmt:
+					e, te = walk(el.List, s)
+				case *ast.IfStmt:
+					e, te = walk([]ast.Stmt{el}, s)
+				default:
+					ok = false
+				}
+				// after the if: used if used on a way that falls through; resets only those made before it
+				if !tb && b.used || !te && e.used {
+					s.used = true
+				}
+				if tb && te {
+					return s, true
+				}
+			case *ast.BlockStmt:
+				b, t := walk(x.List, s)
+				if t {
+					return b, true
+				}
+				s = b
+			case *ast.ForStmt, *ast.RangeStmt, *ast.SwitchStmt, *ast.TypeSwitchStmt, *ast.SelectStmt, *ast.LabeledStmt, *ast.BranchStmt, *ast.GoStmt, *ast.DeferStmt:
+				if usesTransport(x) || stmtContainsReturn(x) {
+					ok = false
+				}
+			default:
+				if stmtIsFlagStore(st, rv, "false") {
+					s.flag = true
+				} else if isStateReset(st) {
+					s.state = true
+				} else if usesTransport(st) {
+					s.used, sawUse = true, true
+				}
+			}
+		}
+		return s, false
+	}
+	end, terminated := walk(mi.fd.Body.List, pst{})
+	if !terminated && end.used && !(end.flag && end.state) {
+		ok = false
+	}
+	return ok && sawUse
+}
+
+func stmtContainsReturn(n ast.Node) bool {
+	found := false
+	ast.Inspect(n, func(x ast.Node) bool {
+		if _, ok := x.(*ast.FuncLit); ok {
+			return false
+		}
+		if _, ok := x.(*ast.ReturnStmt); ok {
+			found = true
+		}
+		return true
+	})
+	return found
 }
 
 // isFlagStore: `c.initialized = <val>` or `c.initialized.Store(<val>)`
@@ -896,4 +1014,164 @@ func lifecycleServerFacts(root *pkgSrc, b *strings.Builder) {
 	}
 	fmt.Fprintf(b, "/-- `handleInitialize` hands `buildInitializeResponse` a variable that is defined exactly once, as `selectSupportedVersion(requested)`\n    with `requested` defined exactly once from the request's `protocolVersion` parameter, and `buildInitializeResponse` stores that\n    parameter unchanged into `ProtocolVersion`: the session plays no part in the version of the answer. -/\n")
 	fmt.Fprintf(b, "def initializeVersionDirect : Bool := %s\n", leanBool(direct))
+	lifecycleCapSources(root, b)
+}
+
+// ---------- server side: what updateCapabilities looks at when it decides on the prompts / resources capabilities
+
+var goBuiltins = map[string]bool{"len": true, "cap": true, "make": true, "new": true, "append": true, "delete": true, "copy": true, "clear": true}
+
+// structFieldTypes: field name -> type name (through one pointer) of a struct type declared in the package.
+func structFieldTypes(p *pkgSrc, typeName string) map[string]string {
+	out := map[string]string{}
+	for _, fn := range p.sortedFiles() {
+		for _, d := range p.files[fn].Decls {
+			gd, ok := d.(*ast.GenDecl)
+			if !ok || gd.Tok != token.TYPE {
+				continue
+			}
+			for _, sp := range gd.Specs {
+				ts, ok := sp.(*ast.TypeSpec)
+				if !ok || ts.Name.Name != typeName {
+					continue
+				}
+				st, ok := ts.Type.(*ast.StructType)
+				if !ok || st.Fields == nil {
+					continue
+				}
+				for _, f := range st.Fields.List {
+					t := f.Type
+					if star, ok := t.(*ast.StarExpr); ok {
+						t = star.X
+					}
+					tn := ""
+					switch x := t.(type) {
+					case *ast.Ident:
+						tn = x.Name
+					case *ast.SelectorExpr:
+						tn = x.Sel.Name
+					}
+					for _, n := range f.Names {
+						out[n.Name] = tn
+					}
+				}
+			}
+		}
+	}
+	return out
+}
+
+// plainReader: the method `<recvType>.<name>` exists, takes no parameter, mentions nothing whose name contains "filter"
+// and calls nothing but builtins and methods of its own mutex field `mu` — i.e. it returns the registry as it is.
+func plainReader(p *pkgSrc, recvType, name string) bool {
+	fd, _ := p.funcDecl(recvType + "." + name)
+	if fd == nil || fd.Body == nil || recvType == "" {
+		return false
+	}
+	if fd.Type.Params != nil && len(fd.Type.Params.List) > 0 {
+		return false
+	}
+	rv := recvName(fd)
+	ok := true
+	ast.Inspect(fd.Body, func(x ast.Node) bool {
+		switch t := x.(type) {
+		case *ast.Ident:
+			if strings.Contains(strings.ToLower(t.Name), "filter") {
+				ok = false
+			}
+		case *ast.FuncLit:
+			ok = false
+		case *ast.CallExpr:
+			switch f := t.Fun.(type) {
+			case *ast.Ident:
+				if !goBuiltins[f.Name] {
+					ok = false
+				}
+			case *ast.SelectorExpr:
+				if !selField(f.X, rv, "mu") {
+					ok = false
+				}
+			default:
+				ok = false
+			}
+		}
+		return true
+	})
+	return ok
+}
+
+func lifecycleCapSources(root *pkgSrc, b *strings.Builder) {
+	type accessor struct {
+		field, method string
+		plain         bool
+	}
+	var accs []accessor
+	other, params := 0, 0
+	passes := false
+	if fd, _ := root.funcDecl("lifecycleManager.updateCapabilities"); fd != nil && fd.Body != nil {
+		rv := recvName(fd)
+		fields := structFieldTypes(root, "lifecycleManager")
+		paramNames := map[string]bool{}
+		if fd.Type.Params != nil {
+			for _, f := range fd.Type.Params.List {
+				if len(f.Names) == 0 {
+					params++
+				}
+				for _, n := range f.Names {
+					params++
+					paramNames[n.Name] = true
+				}
+			}
+		}
+		seen := map[string]bool{}
+		ast.Inspect(fd.Body, func(x ast.Node) bool {
+			if id, ok := x.(*ast.Ident); ok && paramNames[id.Name] {
+				passes = true // a parameter is used at all (today there is none)
+			}
+			call, ok := x.(*ast.CallExpr)
+			if !ok {
+				return true
+			}
+			switch f := call.Fun.(type) {
+			case *ast.Ident:
+				if !goBuiltins[f.Name] {
+					other++
+				}
+			case *ast.SelectorExpr:
+				inner, isSel := f.X.(*ast.SelectorExpr)
+				switch {
+				case selField(f.X, rv, "mu"):
+					// the manager's own mutex
+				case isSel && selField(inner, rv, inner.Sel.Name) && fields[inner.Sel.Name] != "":
+					k := inner.Sel.Name + "." + f.Sel.Name
+					if !seen[k] {
+						seen[k] = true
+						accs = append(accs, accessor{inner.Sel.Name, f.Sel.Name, plainReader(root, fields[inner.Sel.Name], f.Sel.Name)})
+					}
+				default:
+					other++
+				}
+			default:
+				other++
+			}
+			return true
+		})
+	} else {
+		other = 1
+	}
+	sort.Slice(accs, func(i, j int) bool {
+		if accs[i].field != accs[j].field {
+			return accs[i].field < accs[j].field
+		}
+		return accs[i].method < accs[j].method
+	})
+	fmt.Fprintf(b, "/-- What `lifecycleManager.updateCapabilities` consults: the methods it calls on its manager fields (field, method, and whether that method is a\n    plain registry reader: no parameter, nothing named *filter*, no calls but builtins and its own mutex), calls to anything else (builtins and\n    the manager's mutex apart), its parameters, and whether a parameter is used. Not recognised = a value `CapSources.ok` rejects. -/\n")
+	fmt.Fprintf(b, "def capabilitySources : CapSources := { accessors := [")
+	for i, a := range accs {
+		if i > 0 {
+			b.WriteString(", ")
+		}
+		fmt.Fprintf(b, "{ field := %s, method := %s, plain := %s } /- %s.%s -/", leanText(a.field), leanText(a.method), leanBool(a.plain), a.field, a.method)
+	}
+	fmt.Fprintf(b, "], otherCalls := %d, params := %d, usesParam := %s }\n", other, params, leanBool(passes))
 }
